@@ -3,6 +3,7 @@
 From Coq Require Import List Bool Arith String.
 Import ListNotations.
 From Lime Require Import Hs.Types Hs.Server Hs.Monitor Hs.ServerFacts Hs.MonitorFacts Props.HsCommon.
+From Lime Require Import Hs.Client Hs.ClientEnc Hs.ClientEncFacts.
 Open Scope string_scope.
 Open Scope list_scope.
 
@@ -22,6 +23,16 @@ Theorem C09_offer_is_configured_and_supported : forall conf x,
   mem x (neg_enc conf) = true -> mem x (sc_enc conf) = true /\ mem x (supported_enc (sc_kind conf)) = true.
 Proof. intros conf x. apply mem_intersect. Qed.
 Print Assumptions C09_offer_is_configured_and_supported.
+
+(* The client half, for arbitrary selectors and authenticator and EVERY server script: each
+   envelope the client writes goes out under the encryption its SetEncryption calls have put in
+   force; once the server has confirmed (after the client's choice) an encryption other than the
+   one in force, the client switches to exactly that one before it writes anything else - in
+   particular before any credentials; after a failed switch it writes nothing more. *)
+Theorem C09_client_applies_confirmed_pair : forall (conf : cconf) (ins : list sin),
+  enc_discipline (cc_kind conf) (cc_tls_ok conf) (fst (fst (cestablish c_repaired conf ins))) = true.
+Proof. exact client_enc_discipline. Qed.
+Print Assumptions C09_client_applies_confirmed_pair.
 
 (* non-vacuity: a negotiated upgrade, credentials only seen under tls *)
 Example C09_example :
